@@ -484,6 +484,8 @@ PROPS["C18"].update({
         # rows that fail after the driver call (a virtual signal reading Z/X, a deviating answer) with a caller that keeps iterating:
         # vars() of the rows after the error item
         {"declare": 1.0, "reads": 0.6, "pZX": 0.3, "pZXread": 0.0, "maxdepth": 3, "wlet": 0.35, "cont": 1.0, "echo": 1.0},
+        # resetRandom inside loop bodies (it re-seeds the generator and touches nothing else: frames and shadowed bindings stay)
+        {"maxdepth": 3, "budget": 16, "random": 0.5, "wlet": 0.35, "wrow": 0.4, "own_counter": 0.2, "scope_names": 0.6},
     ]),
     "tags": ("PARSE", "BIND", "NEW", "ROW", "VARS", "ITEM", "END"),
     "rule": "seeded valid programs with lets at every depth, shadowing (also of output names), C/X expansions and virtual signals; vars() is read after EVERY "
@@ -704,6 +706,15 @@ def c08_cases(seed, tier):
                 break
         cases.append({"id": "c08-tab-%d" % ci, "kind": "run", "src": "\n".join(lines) + "\n", "sigs": sigs, "layout": [1], "table": [["1"]],
                       "echo": 0, "wdefault": 0, "faults": [], "max": 100000, "seed": 1, "c08": exp})
+    # (1c) literals as BARE row entries (no parentheses), every radix, leading zeros, both ends of the range
+    bare = ["0", "00", "07", "010", "017", "0100", "0777", "0777777777777777777777", "19", "9223372036854775807", "0x1F", "0X1f", "0xaBcD", "0x7FFFFFFFFFFFFFFF",
+            "0b101", "0B11", "0b" + "1" * 63, "0000000017", "08"[:1] + "10", "0x0", "0b0", "1", "8", "9"]
+    bare += [oct(rng.randrange(8, 1 << rng.randrange(4, 63))).replace("0o", "0") for _ in range(6)]
+    def _val(t):
+        tl = t.lower()
+        return int(tl[2:], 16) if tl.startswith("0x") else int(tl[2:], 2) if tl.startswith("0b") else int(t, 8) if t.startswith("0") and len(t) > 1 else int(t)
+    cases.append({"id": "c08-bare", "kind": "run", "src": "A V\ndeclare V = Q;\n" + "".join("0 %s\n" % t for t in bare), "sigs": sigs, "layout": [1], "table": [["1"]],
+                  "echo": 0, "wdefault": 0, "faults": [], "max": 100000, "seed": 1, "c08": [_val(t) for t in bare], "c08_bare": True})
     # (2) random trees, minimal and redundant parentheses, unary operators, ite, radix mix
     n = 300 if tier == "quick" else 20000
     for i in range(n):
@@ -748,7 +759,7 @@ def c08_oracle(case, trace):
             return
         got = [o[2] for o in rows[k][2] if o[0] == "V"]
         if got != [str(want)]:
-            src_line = [l for l in case["src"].split("\n") if l.startswith("0 (")][k]
+            src_line = [l for l in case["src"].split("\n") if l.startswith("0 (" if not case.get("c08_bare") else "0 ")][k]
             yield "expression %s evaluates to %s, expected %d (64-bit two's complement semantics)" % (src_line[2:], got, want)
             return
         k += 1
@@ -1245,6 +1256,13 @@ def breaking_edits(rng, src):
     out.append((src.rstrip("\r\n") + "\nloop(zz,%s)\n%s\nend loop\n" % (rng.choice(["0", "0x0", "00", "0b0"]), bad_body), "malformed statement inside the body of a loop with bound 0"))
     out.append((src.rstrip("\r\n") + "\n" + " ".join(["1"] * hdr_n) + "\r" + " ".join(["1"] * hdr_n) + "\n", "two rows separated by a lone CR (a CR is a blank, not a line break)"))
     out.append((src.rstrip("\r\n") + "\nloop(zz,1)\r" + " ".join(["1"] * hdr_n) + "\nend loop\n", "loop header followed by a lone CR instead of a line break"))
+    # a second statement on the line of a declare (a declaration ends its line like every other statement)
+    out.append((src.rstrip("\r\n") + "\ndeclare SL = 1; " + rng.choice([" ".join(["0"] * hdr_n), "let sl2 = 2;", "resetRandom;", "declare SL2 = 2;"]) + "\n", "two statements on a line (after a declare)"))
+    # a stray operator between two row entries: the entries are NOT glued into one expression
+    if hdr_n >= 1:
+        glue = rng.choice(["(1) + (2)", "(1) -1", "(1) & 1", "(3) * (2)", "(1) - (1)", "(1) | 0"])
+        out.append((src.rstrip("\r\n") + "\n" + " ".join([glue] + ["0"] * (hdr_n - 1)) + "\n", "an operator between two row entries (would fit the header if they were glued together)"))
+        out.append((src.rstrip("\r\n") + "\nrepeat(2) " + " ".join([glue] + ["0"] * (hdr_n - 1)) + "\n", "an operator between two entries of a repeat row"))
     # a header of 65-80 columns does not make bits(65..) legal: a value has 64 bits
     ncw = rng.choice([65, 66, 70, 80])
     kw = rng.randrange(65, ncw + 1)
@@ -2571,3 +2589,152 @@ _extend("C09", lambda seed, tier: [dict(c, id="c09-" + c["id"]) for c in c16_dup
 
 for _p in ("C10", "C05", "C20", "C08", "C02"):
     _extend(_p, (lambda pref: (lambda seed, tier: more_name_cases(pref)))(_p.lower()), "plus the name shapes (B next to an input B_out, two C in a row, names that spell an expression)")
+
+
+# ------------------------------------------------------------------ round 7 additions
+
+def c14_loop_shadow_cases(seed, tier):
+    """a declared signal reads the OUTPUT of a name that is, at that row, a variable of a LOOP frame: the loop's own counter,
+    the implicit n of repeat, a let inside the body, two levels deep - never the variable (C14: blind to variables)"""
+    cases = []
+    k = 0
+    for oname, prog in [
+        ("n", ["repeat(3) (n) X X"]),
+        ("n", ["loop(i,2)", "repeat(2) (n+i) X X", "end loop"]),
+        ("i", ["loop(i,3)", "(i) X X", "end loop"]),
+        ("Q", ["loop(Q,3)", "(Q) X X", "end loop"]),
+        ("Q", ["loop(i,3)", "let Q = 50 + i;", "(Q) X X", "end loop", "(1) X X"]),
+        ("Q", ["let Q = 9;", "loop(i,2)", "(i) X X", "let Q = 60;", "(i) X X", "end loop", "(Q) X X"]),
+        ("Q", ["loop(i,2)", "loop(j,2)", "let Q = 70 + j;", "(Q) X X", "end loop", "(i) X X", "end loop"]),
+        ("Q", ["let w = 0;", "while(w < 2)", "let Q = 80 + w;", "(Q) X X", "let w = w + 1;", "end while", "(Q) X X"]),
+        ("j", ["loop(i,2)", "loop(j,2)", "(i+j) X X", "end loop", "end loop"]),
+    ]:
+        for decl in ("%s + 100" % oname, "%s" % oname, "ite(%s > 5, %s, 0 - %s)" % (oname, oname, oname)):
+            for vcol in (True, False):
+                sigs = [{"name": "A", "typ": "I", "bits": 8, "default": "0"}, {"name": oname, "typ": "O", "bits": 8, "default": "-"},
+                        {"name": "R", "typ": "O", "bits": 8, "default": "-"}]
+                hdr = "A %s R" % oname + (" V" if vcol else "")
+                tail = " X" if vcol else ""
+                lines = [hdr, "declare V = %s;" % decl] + [l + tail if l.endswith("X X") else l for l in prog]
+                table = [[str(7 + 3 * r_), str(200 + r_)] for r_ in range(12)]
+                cases.append({"id": "c14-loopshadow-%d" % k, "kind": "run", "src": "\n".join(lines) + "\n", "sigs": sigs, "layout": [1, 2], "table": table,
+                              "echo": 0, "wdefault": k % 2, "faults": [], "max": 40, "seed": 1 + k, "cont": 0})
+                k += 1
+    return cases
+
+
+_extend("C14", c14_loop_shadow_cases, "plus fixed shapes: the declared signal reads an output whose name is, at that row, a variable of a loop frame (loop counter, n of repeat, let in the body, nested)")
+_extend("C04", c14_loop_shadow_cases, "plus the loop-frame shadowing shapes of C14")
+
+
+def c11_virtual_clash_cases(seed, tier):
+    """a declared (virtual) name that is also the name of a device signal, in or not in the header, declared at top level or
+    inside a loop; the device signal an input, an output or bidirectional, before or after the others"""
+    cases = []
+    k = 0
+    for in_header in (True, False):
+        for typ in ("I", "O", "B"):
+            for pos in (0, 2):
+                for inner in (False, True):
+                    sigs = [{"name": "A", "typ": "I", "bits": 1, "default": "0"}, {"name": "Q", "typ": "O", "bits": 8, "default": "-"}]
+                    sigs.insert(pos, {"name": "V", "typ": typ, "bits": 8, "default": "-" if typ == "O" else "0"})
+                    hdr = "A Q" + (" V" if in_header else "")
+                    decl = ["loop(i,1)", "declare V = Q + 1;", "end loop"] if inner else ["declare V = Q + 1;"]
+                    row = "1 X" + (" X" if in_header else "")
+                    cases.append({"id": "c11-vclash-%d" % k, "kind": "run", "src": "\n".join([hdr] + decl + [row]) + "\n", "sigs": sigs, "layout": [1], "table": [["3"]],
+                                  "echo": 0, "wdefault": 0, "faults": [], "max": 10, "seed": 1, "c11": "declared name V is also a device signal"})
+                    k += 1
+    # control: the same without the device signal binds
+    cases.append({"id": "c11-vclash-control", "kind": "run", "src": "A Q\ndeclare V = Q + 1;\n1 X\n",
+                  "sigs": [{"name": "A", "typ": "I", "bits": 1, "default": "0"}, {"name": "Q", "typ": "O", "bits": 8, "default": "-"}], "layout": [1], "table": [["3"]],
+                  "echo": 0, "wdefault": 0, "faults": [], "max": 10, "seed": 1, "c11": "intact"})
+    return cases
+
+
+_extend("C11", c11_virtual_clash_cases, "plus fixed shapes: a declared name that is also a device signal (in / not in the header, every direction, declared inside a loop)")
+
+
+def c10_many_x_cases(seed, tier):
+    """rows with 60-70 don't-care inputs (2^60.. rows: the first few are asked for), with and without a clock"""
+    cases = []
+    for k, nx in enumerate([60, 63, 64, 65, 70]):
+        for clock in (False, True):
+            sigs = [{"name": "I%d" % i, "typ": "I", "bits": 1, "default": "0"} for i in range(nx)] + [{"name": "K", "typ": "I", "bits": 1, "default": "0"},
+                                                                                                    {"name": "Q", "typ": "O", "bits": 8, "default": "-"}]
+            hdr = " ".join(s_["name"] for s_ in sigs)
+            row = " ".join(["X"] * nx + ["C" if clock else "1", "X"])
+            cases.append({"id": "c10-manyx-%d-%d" % (nx, clock), "kind": "run", "src": hdr + "\n" + row + "\n" + row + "\n", "sigs": sigs, "layout": [nx + 1], "table": [["1"]],
+                          "echo": 0, "wdefault": k % 2, "faults": [], "max": 9, "seed": 1, "cont": 0})
+            cases.append({"id": "c10-manyx-%d-%d-s" % (nx, clock), "kind": "static", "src": hdr + "\n" + row + "\n", "sigs": sigs, "layout": [], "table": [],
+                          "echo": 0, "wdefault": 0, "faults": [], "max": 9, "seed": 1, "cont": 0})
+    return cases
+
+
+for _p in ("C10", "C05"):
+    _extend(_p, c10_many_x_cases, "plus rows with 60-70 don't-care inputs (only the first items are asked for)")
+
+
+def c05_declared_reads_cases(seed, tier):
+    """expansions (X on inputs, C) in tests with a declared signal that reads an output the device changes on every call:
+    each expanded row's declared value comes from THAT row's answer"""
+    cases = []
+    rng = random.Random(seed ^ 0x5D)
+    for k in range(24 if tier == "quick" else 600):
+        nx = rng.randrange(1, 4)
+        clock = rng.random() < 0.5
+        sigs = [{"name": "I%d" % i, "typ": "I", "bits": 1, "default": "0"} for i in range(nx)] + [{"name": "K", "typ": "I", "bits": 1, "default": "0"},
+                                                                                                {"name": "Q", "typ": "O", "bits": 8, "default": "-"}]
+        vcol = rng.random() < 0.7
+        hdr = " ".join(s_["name"] for s_ in sigs) + (" V" if vcol else "")
+        rows = []
+        for _ in range(rng.randrange(1, 4)):
+            ent = [rng.choice(["X", "X", "0", "1"]) for _ in range(nx)] + ["C" if clock and rng.random() < 0.7 else rng.choice(["0", "1"]), rng.choice(["X", "(Q)", "X"])]
+            rows.append(" ".join(ent + (["X"] if vcol else [])))
+        table = [[str(rng.randrange(0, 250))] for _ in range(40)]
+        cases.append({"id": "c05-declreads-%d" % k, "kind": "run", "src": "\n".join([hdr, "declare V = Q + 1;"] + rows) + "\n", "sigs": sigs, "layout": [nx + 1], "table": table,
+                      "echo": 0, "wdefault": k % 2, "faults": [], "max": 200, "seed": 1 + k, "cont": 0})
+    return cases
+
+
+_extend("C05", c05_declared_reads_cases, "plus expansions in tests whose declared signal reads an output that changes on every call")
+_extend("C14", c05_declared_reads_cases, "plus the same expansions with a declared signal (C05)")
+
+
+def c19_dup_rows_cases(seed, tier):
+    """byte-identical rows (with and without parentheses) at several lines of the same block, of sibling blocks and after
+    blank / comment lines, LF and CRLF: every row reports its OWN line"""
+    cases = []
+    sigs = [{"name": "A", "typ": "I", "bits": 8, "default": "0"}, {"name": "Q", "typ": "O", "bits": 8, "default": "-"}]
+    rng = random.Random(seed ^ 0x19D)
+    shapes = [
+        ["A Q", "(1+2) X", "(1+2) X", "", "(1+2) X"],
+        ["A Q", "let k = 1;", "(k) (k)", "(k) (k)", "# c", "(k) (k)", "7 X", "7 X"],
+        ["", "", "A Q", "loop(i,2)", "(i) X", "(i) X", "end loop", "(i+0) X", "loop(i,2)", "(i) X", "end loop"],
+        ["A Q", "repeat(2) (n) X", "repeat(2) (n) X", "", "", "repeat(2) (n) X"],
+        ["A Q", "bits(8,3) ", "bits(8,3) ", "loop(j,1)", "bits(8,3) ", "end loop", "bits(8,3) "],
+        ["A Q # h", "(0x10) X # same", "(0x10) X # same", "   ", "(0x10) X # same"],
+    ]
+    k = 0
+    for sh in shapes:
+        for eol in ("\n", "\r\n"):
+            for final in (True, False):
+                lines = [l if not l.startswith("bits") else l + "X" for l in sh]
+                # bits(8,3) fills all 8 bits of A? no: A has 8 bits, bits(8,3) is ONE group of eight 1-bit entries - use a plain header for it
+                if any(l.startswith("bits") for l in sh):
+                    continue
+                src = eol.join(lines) + (eol if final else "")
+                cases.append({"id": "c19-duprows-%d" % k, "kind": "run", "src": src, "sigs": sigs, "layout": [1], "table": [[str(rng.randrange(0, 9))]],
+                              "echo": 0, "wdefault": 0, "faults": [], "max": 60, "seed": 1 + k, "cont": 0})
+                k += 1
+    return cases
+
+
+for _p in ("C19", "C20"):
+    _extend(_p, c19_dup_rows_cases, "plus byte-identical rows at several lines of one block / of sibling blocks (every row reports its own line)")
+
+
+# C03: what a caller sees for a bidirectional pin must not depend on which test of a .dig file was loaded
+_c03_base2 = PROPS["C03"]["cases"]
+PROPS["C03"]["cases"] = lambda seed, tier: _c03_base2(seed, tier) + [dict(c, id="c03-" + c["id"]) for c in _gen_dig.cases((seed ^ 0xC03) & 0xFFFFFF, 40 if tier == "quick" else 600, 0, 0)]
+PROPS["C03"]["oracles"] = PROPS["C03"]["oracles"] + [_f16.c16_load_oracle]
+PROPS["C03"]["rule"] += "; plus .dig documents (several tests per file, only some of them using <pin>_out): load_test(i) = from_str(source i) bound to the FILE's signals"
